@@ -34,6 +34,7 @@ TRUSTED_BASE = [
 ASSUMPTIONS = [
     "Lua VM integer semantics as written in coq/Base/LuaInt.v; lvm.c forprep/LTintfloat/LEintfloat/luaV_equalobj transcribed in coq/C01/Model.v",
     "C dialect: LP64, two's complement, -fwrapv semantics for + - * unary- when the scraped base flags of BOTH gcc and clang contain it; int64->double conversion rounds to nearest even (rne53)",
+    "Attr:is_maybe_negative answers `false` only through its scraped exits; that exit 1 (unsigned type) and exit 2 (compile-time value >= 0) cannot apply to a run-time int64 variable is read off their conditions by hand (Model.rt_maybe_negative), an unknown exit breaks the proofs",
     "C's unsequenced evaluation is modelled as an oracle choosing an order of whole operands per operator/call node (no interleaving inside operands)",
     "float arithmetic // % ^ and number formatting are not modelled: covered by the differential stream only (testing)",
     "statements other than numeric for and multi-variable local declarations, functions/multiple returns, require, strings: differential stream only (testing)",
@@ -55,7 +56,9 @@ UNPROVED = [
 THEOREM_CLASSES = {
     "C01_add_eq": "main", "C01_sub_eq": "main", "C01_mul_eq": "main", "C01_unm_eq": "main",
     "C01_band_eq": "main", "C01_bor_eq": "main", "C01_bxor_eq": "main", "C01_bnot_eq": "main",
-    "C01_idiv_eq": "main", "C01_imod_eq": "main", "C01_div_by_zero_both_stop": "main",
+    "C01_idiv_eq": "main", "C01_imod_eq": "main",
+    "C01_idiv_maybe_negative_iff": "tripwire",    # every answer of is_maybe_negative: Lua's // % iff the operand counts as possibly negative
+    "C01_div_by_zero_both_stop": "main",
     "C01_shl_eq": "main", "C01_shr_eq": "main", "C01_cmp_eq": "main",
     "C01_mixed_cmp_refuted": "refutation", "C01_mixed_cmp_partial": "main", "C01_lua_mixed_cmp_exact": "corollary",     # about the reference side's model only (lvm.c mixed comparisons = the exact order)
     "C01_fornum_refuted": "refutation", "C01_fornum_partial": "main",
